@@ -551,6 +551,7 @@ Lemma P_exit_ok : path_ok P_exit = true. Proof. vm_compute; reflexivity. Qed.
 Lemma P_shellpty_ok : path_ok P_shellpty = true. Proof. vm_compute; reflexivity. Qed.
 Lemma P_shellout_ok : path_ok P_shellout = true. Proof. vm_compute; reflexivity. Qed.
 Lemma P_file_ok : path_ok P_file = true. Proof. vm_compute; reflexivity. Qed.
+Lemma P_shellin_ok : path_ok P_shellin = true. Proof. vm_compute; reflexivity. Qed.
 
 Theorem current_paths_exact : forall pa, In pa all_paths ->
   forall k blocks eofd ctr expect, expect <= ctr ->
@@ -585,6 +586,15 @@ Lemma shell_pre_fix_smallest_refuted :
   | None => False
   end.
 Proof. vm_compute. split; reflexivity. Qed.
+
+(** Shell stdin before the repair: a 16356-byte STDIN payload becomes one
+    sealed message of 16385 bytes, Frame.Encode refuses it, nothing is sent. *)
+Lemma shellin_pre_fix_refuted :
+  match run P_shellin_pre_fix 1 0 [block_of 16356] false with
+  | Some o => o_frames o = [] /\ o_error o = true /\ r_out (receive P_shellin_pre_fix 1 0 (o_frames o)) = []
+  | None => False
+  end.
+Proof. vm_compute. repeat split. Qed.
 
 Lemma shell_pre_fix_does_not_fit : path_fits P_shellpty_pre_fix = false /\ path_fits P_shellout_pre_fix = false.
 Proof. split; vm_compute; reflexivity. Qed.
@@ -622,7 +632,7 @@ Module Table.
   Local Open Scope string_scope.
   Definition model_table : list (string * (N * N * bool)) :=
     [("meshconn", row P_meshconn); ("exit", row P_exit); ("forward", row P_forward);
-     ("shellout", row P_shellout); ("shellpty", row P_shellpty);
+     ("shellout", row P_shellout); ("shellpty", row P_shellpty); ("shellin", row P_shellin);
      ("file-upload", row P_file); ("file-download", row P_file)].
 End Table.
 Definition model_table := Table.model_table.
